@@ -1,6 +1,7 @@
 package main
 
 import (
+	"bytes"
 	"crypto/md5"
 	"encoding/hex"
 	"fmt"
@@ -151,7 +152,7 @@ func parseCopyCase(l string) copyCase {
 
 var copyCounter int
 
-func execCopyCase(c copyCase, scratch string) (obs string) {
+func execCopyCaseVia(c copyCase, scratch string, direct bool) (obs string) {
 	defer func() {
 		if r := recover(); r != nil {
 			obs = "PANIC " + tok(fmt.Sprint(r))
@@ -175,7 +176,8 @@ func execCopyCase(c copyCase, scratch string) (obs string) {
 		panic(err)
 	}
 	if c.kind == "copy" && c.dstPerm >= 0 {
-		if err := de.vfs.WriteFile(dstPath, []byte("old-content"), 0o644); err != nil {
+		// an existing destination is always LONGER than the source: a copy that does not truncate shows its old tail
+		if err := de.vfs.WriteFile(dstPath, bytes.Repeat([]byte("old-content."), (c.size+100)/12+1), 0o644); err != nil {
 			panic(err)
 		}
 		if err := de.vfs.Chmod(dstPath, fs.FileMode(c.dstPerm)); err != nil {
@@ -199,10 +201,14 @@ func execCopyCase(c copyCase, scratch string) (obs string) {
 	_ = dfs.SetFailFunc(ds.failFunc)
 	var sum []byte
 	var err error
+	var dvfs, svfs avfs.VFS = dfs, sfs
+	if direct { // the file systems themselves, not through FailFS (whose Create/Open are its own)
+		dvfs, svfs = de.vfs, se.vfs
+	}
 	if c.hashing {
-		sum, err = avfs.CopyFileHash(dfs, sfs, dstPath, srcPath, md5.New())
+		sum, err = avfs.CopyFileHash(dvfs, svfs, dstPath, srcPath, md5.New())
 	} else {
-		err = avfs.CopyFile(dfs, sfs, dstPath, srcPath)
+		err = avfs.CopyFile(dvfs, svfs, dstPath, srcPath)
 	}
 	s := "nil"
 	if sum != nil {
@@ -219,6 +225,25 @@ func execCopyCase(c copyCase, scratch string) (obs string) {
 		}
 	}
 	return fmt.Sprintf("err=%s sum=%s dst=%s trace=%s", showErr(err), s, dst, strings.Join(trace, ","))
+}
+
+// execCopyCase runs the case through FailFS on both sides (fault plans, consulted primitives); a fault-free copy is
+// run a second time on fresh instances WITHOUT the FailFS wrappers and must give the same error, digest and destination.
+func execCopyCase(c copyCase, scratch string) string {
+	obs := execCopyCaseVia(c, scratch, false)
+	if c.kind == "copy" && len(c.faults) == 0 {
+		d := execCopyCaseVia(c, scratch, true)
+		cut := func(x string) string {
+			if i := strings.Index(x, " trace="); i >= 0 {
+				return x[:i]
+			}
+			return x
+		}
+		if cut(d) != cut(obs) {
+			obs += " DIRECT-DIFFERS(" + cut(d) + ")"
+		}
+	}
+	return obs
 }
 
 func runCopy(cfg config) {
